@@ -69,6 +69,12 @@ def build(env, reps):
                 else:
                     # NIST: accepted byte strings built by the reference
                     c = R.KEMS[kem].curve
+                    if kind in ("pk", "enc"):
+                        for _ in range(reps):
+                            x, y = c.mul_base(rnd.randrange(1, c.n))
+                            xb = x.to_bytes(c.nbytes, "big")
+                            for tag in (2 + (y & 1), 3 - (y & 1), 5, 4):
+                                s.call("from_bytes", kind=kind, bytes=bytes([tag]) + xb, src="wrong_length_sec1_compressed")
                     for _ in range(reps):
                         d = rnd.randrange(1, c.n)
                         b = c.encode_private(d) if kind == "sk" else c.encode_public(c.mul_base(d))
@@ -114,7 +120,7 @@ def monitor(sess, extra):
                 if op.outcome() != want:
                     r.violation("C12:wrong_length:%s" % kind, "%s::from_bytes of %d bytes: got %s, expected %s" % (kind, len(data), op.outcome(), want), sess, op)
                     continue
-                r.distinct.add((kem, aead, kind, "from_bytes", "short" if len(data) < size else "long"))
+                r.distinct.add((kem, aead, kind, "from_bytes", "short" if len(data) < size else "long", src if src != "wrong_length" else ""))
             else:
                 must_accept = src in ("library", "reference_key") or kem == 0x0020 or kind == "tag"
                 if not op.ok():
